@@ -119,7 +119,7 @@ def do_writes(hub, U, all_letters, letters, assign, rng, regime):
             for rhs_kind in ("number", "ndarray", "array", "array+extra", "array-permuted", "array-lacking"):
                 t = fd.FlodymArray(dims=gen.dimset(fd, U, letters), values=gen.values_one("dyadic", rng, shape))
                 if rhs_kind == "number":
-                    rhs = float(rng.integers(-50, 50)) / 4
+                    rhs = float(rng.integers(-50, 50)) / 4 if rng.random() < 0.7 else int(rng.integers(-5, 6))
                 else:
                     if kd is None and key is not Ellipsis:
                         continue
@@ -262,7 +262,9 @@ def do_history(hub, U, all_letters, letters, rng, length):
         key = build_key(fd, U, letters, assign, rng, rng.choice(["id", "rand"]), rng.choice(["letter", "name", "mixed"]))
         r = rng.random()
         try:
-            if r < 0.3:
+            if r < 0.1:
+                t[key] = int(rng.integers(-3, 4))  # an integer fill must not change how later fractional values are stored
+            elif r < 0.3:
                 t[key] = float(rng.integers(-40, 40)) / 8
             elif r < 0.55 and isinstance(key, dict):
                 rd = region_dims(fd, U, letters, key)
@@ -280,6 +282,9 @@ def do_history(hub, U, all_letters, letters, rng, length):
                 ds = fd.DimensionSet(dim_list=dims)
                 t[key] = fd.FlodymArray(dims=ds, values=gen.values_one("dyadic", rng, ds.shape))
             else:
-                t[...] = gen.values_one("dyadic", rng, shape if rng.random() < 0.7 else shape[::-1] + (1,))
+                if rng.random() < 0.25:
+                    t[...] = int(rng.integers(0, 3))
+                else:
+                    t[...] = gen.values_one("dyadic", rng, shape if rng.random() < 0.7 else shape[::-1] + (1,))
         except Exception:
             pass
